@@ -2,7 +2,7 @@
 """Confirms seeded mutations delivered by sub-agents: for each /verif/seeded/_inbox/<id>/<k>:
  builds, whole test-suite passes with the patch, demo fails with it and passes without it. Writes confirm.json."""
 import json, os, re, subprocess, sys, glob, shutil, time
-INBOX = "/verif/seeded/_inbox"
+INBOX = "/verif/seeded"
 HEADMODE = bool(os.environ.get("CONFIRM_HEAD"))
 WT = "/tmp/confirm/wt_head" if HEADMODE else "/tmp/confirm/wt"
 PINNED = subprocess.run(["git", "-C", "/repo", "rev-parse", "HEAD"], stdout=subprocess.PIPE, text=True).stdout.strip() if HEADMODE else "9f1ceaf"
